@@ -957,6 +957,15 @@ def run(tier):
               'candidate on which the command does not terminate is not '
               'overwritten by a harmless one while the command starts up '
               '(shared with C09.R6)', sub09b)
+    # each command runs under its own limit (shared with C09.R2)
+    from . import c09 as _c09c
+    sub09c = Check('C09', 'other', tier, [], [])
+    chk.guard(_c09c.rule_r2, sub09c, prog)
+    Check.restrict(sub09c, lambda wh, what: 'timeout' in str(what))
+    chk.adopt('C10.R14', 'the command runs under --timeout and the '
+              'cross-check command under --timeout-cc: a hanging cross '
+              'check is stopped at its own limit (shared with the timeout '
+              'part of C09.R2)', sub09c)
     extra = None
     if tier == 'thorough':
         from .. import selftest
